@@ -67,6 +67,7 @@ type c16Span struct {
 	Fields int  `json:"fields,omitempty"`
 	IDName int  `json:"idname,omitempty"` // which trace-id field name carries the id
 	Rate   int  `json:"rate,omitempty"`   // client-side sample rate (0 = absent)
+	Probe  bool `json:"probe,omitempty"`  // the span arrives marked meta.refinery.probe=true (a probe sent by another refinery)
 }
 
 type c16Op struct {
@@ -144,6 +145,7 @@ func genC16(t *rapid.T) c16Case {
 			Fields: rapid.IntRange(0, 2).Draw(t, "fields"),
 			IDName: rapid.SampledFrom([]int{0, 0, 0, 1}).Draw(t, "idname"),
 			Rate:   rapid.SampledFrom([]int{0, 0, 1, 4}).Draw(t, "clientrate"),
+			Probe:  rapid.IntRange(0, 5).Draw(t, "probe") == 4,
 		}
 	})
 	opGen := rapid.Custom(func(t *rapid.T) c16Op {
@@ -404,6 +406,7 @@ type c16SpanObs struct {
 	Key, DS  string
 	Sent     map[string]any
 	Status   int // per-event status the router answered
+	Probe    bool
 }
 
 type c16Obs struct {
@@ -671,9 +674,12 @@ func c16Run(c c16Case) (obs c16Obs) {
 				if !sp.Root {
 					f["trace.parent_id"] = "p" + sid
 				}
+				if sp.Probe {
+					f["meta.refinery.probe"] = true
+				}
 				bodies = append(bodies, f)
 				rates = append(rates, sp.Rate)
-				sos = append(sos, c16SpanObs{SID: sid, Op: oi, Idx: si, Trace: sp.Trace, Stressed: stress.on.Load(), ViaPeer: op.Peer, JSON: op.JSON, Key: key, DS: ds, Sent: f})
+				sos = append(sos, c16SpanObs{SID: sid, Op: oi, Idx: si, Trace: sp.Trace, Stressed: stress.on.Load(), ViaPeer: op.Peer, JSON: op.JSON, Key: key, DS: ds, Sent: f, Probe: sp.Probe})
 			}
 			if len(bodies) == 0 {
 				continue
@@ -702,7 +708,7 @@ func c16Run(c c16Case) (obs c16Obs) {
 			}
 			for i := range sos {
 				sos[i].Status = sts[i].Status
-				if sts[i].Status == 202 && !sos[i].Stressed && c.Traces[sos[i].Trace].Owner == 0 {
+				if sts[i].Status == 202 && !sos[i].Stressed && !sos[i].Probe && c.Traces[sos[i].Trace].Owner == 0 {
 					toCollector++
 				}
 			}
@@ -857,6 +863,9 @@ func c16Judge(c c16Case, obs c16Obs, res *vkit.Result) {
 		if s.Status != 202 {
 			continue
 		}
+		if s.Probe {
+			continue // a received probe is discarded; it does not make the trace "seen"
+		}
 		if !seen[s.Trace] {
 			seen[s.Trace] = true
 			firstStressed[s.Trace] = s.Stressed
@@ -879,6 +888,25 @@ func c16Judge(c c16Case, obs c16Obs, res *vkit.Result) {
 		ds := bySID[s.SID]
 		if s.Status != 202 {
 			res.Class("span-not-accepted")
+			continue
+		}
+		if s.Probe {
+			// A probe received from another refinery is discarded, whatever this
+			// node's stress state: never data for Honeycomb, never forwarded.
+			state := "calm"
+			if s.Stressed {
+				state = "stressed"
+			}
+			res.Class("incoming-probe/" + who + "/" + state)
+			for _, d := range ds {
+				where := "forwarded-to-peer"
+				if d.Dest == "hny" {
+					where = "reached-honeycomb"
+				}
+				res.Violate(fmt.Sprintf("C16/%s/%s/incoming-probe-%s/receiver-%s", v, who, where, state),
+					"span %s of trace %s arrived marked meta.refinery.probe=true on the %s listener of a %s node and was sent on to %s (fields %v)",
+					s.SID, id, map[bool]string{true: "peer", false: "incoming"}[s.ViaPeer], state, d.Dest, d.Fields)
+			}
 			continue
 		}
 		var atHny, atPeers []c16Delivery
@@ -1073,6 +1101,7 @@ func TestC16(t *testing.T) {
 			"Varying MaxBatchSize/BatchTimeout puts the stressed span first/middle/alone in its batch. Non-trivial: a kept span of a foreign trace arrived while stressed. Distinct = distinct case JSON.",
 		Assumptions: []string{
 			"the deterministic rule is taken from a second, independent collect.StressRelief instance with the same SamplingRate (\"every node decides alike\") plus a 6-sigma check of its kept fraction; the hash constants are not pinned",
+			"a span that arrives already marked meta.refinery.probe=true (a probe from another refinery, generated directly as wire input on either listener) must be discarded whatever the receiver's stress state: it reaches neither Honeycomb nor a peer and does not count as the trace's first span",
 			"judged: traces first seen while relief is on; spans of traces first seen before are only subject to 'no probe at Honeycomb'",
 			"late spans (after relief ended) are judged on the owning node only; on a non-owner they are forwarded to the owner (C19) and not judged",
 			"extra fields refinery adds under meta.* are allowed at Honeycomb, except meta.refinery.probe; the sample rate is classified, not judged",
